@@ -397,6 +397,33 @@ def c19_empty_relation():
     return None if ok else f"expand_relations with an empty second relation: tensor {T.tolist()}"
 
 
+def c10_strides():
+    """single-feature training data given again with other strides: x[:, None] has strides (4, 0), x.reshape(-1, 1).copy() has
+    (4, 4); both are C-contiguous and equal; the pinned fingerprint (joblib.hash of the array) included the strides"""
+    import umap
+    x = _rng(0).normal(size=40).astype(np.float32)
+    with warnings.catch_warnings():
+        warnings.simplefilter("ignore")
+        m = umap.UMAP(n_neighbors=5, random_state=1, n_epochs=11).fit(x[:, None])
+        out = m.transform(x.reshape(-1, 1).copy())
+    return None if np.array_equal(out, m.embedding_) else "transform(training data with other strides) is not the training embedding"
+
+
+def c10_graph_update():
+    """update on a transform_mode='graph' model (the pinned tree read the absent embedding_: AttributeError)"""
+    import umap
+    X = _rng(1).normal(size=(50, 4)).astype(np.float32)
+    with warnings.catch_warnings():
+        warnings.simplefilter("ignore")
+        m = umap.UMAP(n_neighbors=5, random_state=1, transform_mode="graph").fit(X[:40])
+        try:
+            m.update(X[40:])
+            g = m.transform(X[:3] + 0.01)
+        except Exception as e:  # noqa
+            return f"update / transform on a graph-mode model raised {type(e).__name__}: {e}"
+    return None if g.shape == (3, 50) else f"graph-mode transform after update has shape {g.shape}"
+
+
 def c10_csr_copy():
     import umap
     X = _rng(0).normal(size=(60, 5)).astype(np.float32)
@@ -825,6 +852,8 @@ WITNESSES = {
     "C15:symmetric-graph-start-vector": c15_symmetric_path,
     "C10:sparse-training-data-not-recognised": c10_csr_copy,
     "C10:list-n_epochs-transform-typeerror": c10_list_epochs,
+    "C10:fingerprint-memory-layout": c10_strides,
+    "C10:graph-mode-update": c10_graph_update,
     "C05:densmap-isolated-sample": c05_densmap_isolated,
     "C04:metric-supervision-adds-far-edges": c04_metric_supervision_far_edges,
     "C05:unique-explicit-zero": c05_unique_explicit_zero,
